@@ -14,6 +14,7 @@ import (
 	"berty.tech/go-ipfs-log/entry"
 	"berty.tech/go-ipfs-log/identityprovider"
 	ifacelog "berty.tech/go-ipfs-log/iface"
+	ipfslogio "berty.tech/go-ipfs-log/io"
 	"berty.tech/go-orbit-db/accesscontroller"
 	"berty.tech/go-orbit-db/accesscontroller/simple"
 	"berty.tech/go-orbit-db/address"
@@ -160,6 +161,11 @@ func (b *BaseStore) InitBaseStore(ipfs coreiface.CoreAPI, identity *identityprov
 	if options.Logger == nil {
 		options.Logger = zap.NewNop()
 	}
+
+	if options.IO == nil {
+		options.IO = ipfslogio.CBOR()
+	}
+	options.IO = guardIO(options.IO)
 
 	b.directChannel = options.DirectChannel
 
